@@ -341,6 +341,23 @@ func (c *checker) checkTokens(toks hclsyntax.Tokens, mode string) {
 				return
 			}
 		}
+		// the line of a position is one more than the line feeds before it (a CR LF is one
+		// line break: its LF); a line break moves the column back to 1
+		if wl := 1 + bytes.Count(src[:s], []byte{'\n'}); t.Range.Start.Line != wl {
+			c.report("lex/"+mode+"/line-of-token",
+				fmt.Sprintf("Lex (%s) of %s: token #%d %s starts at byte %d, which is on line %d; its range says line %d", mode, quoteInput(src), i, ty, s, wl, t.Range.Start.Line))
+			return
+		}
+		if wl := 1 + bytes.Count(src[:e], []byte{'\n'}); t.Range.End.Line != wl {
+			c.report("lex/"+mode+"/line-of-token",
+				fmt.Sprintf("Lex (%s) of %s: token #%d %s ends at byte %d, which is on line %d; its range says line %d", mode, quoteInput(src), i, ty, e, wl, t.Range.End.Line))
+			return
+		}
+		if s > 0 && src[s-1] == '\n' && t.Range.Start.Column != 1 {
+			c.report("lex/"+mode+"/column-after-line-break",
+				fmt.Sprintf("Lex (%s) of %s: token #%d %s starts right after a line break but at column %d", mode, quoteInput(src), i, ty, t.Range.Start.Column))
+			return
+		}
 		if !bytes.Equal(t.Bytes, src[s:e]) {
 			c.report("lex/"+mode+"/bytes-differ-from-range",
 				fmt.Sprintf("Lex (%s) of %s: token #%d %s has Bytes %q but its range [%d,%d) holds %q", mode, quoteInput(src), i, ty, t.Bytes, s, e, src[s:e]))
